@@ -71,8 +71,10 @@ from ._common import STATUS_PARKED
 from ._common import STATUS_RUNNING
 from ._common import STATUS_SLEEPING
 from ._common import STATUS_STOPPED
+from ._common import STATUS_SUSPENDED
 from ._common import STATUS_TRACING_STOP
 from ._common import STATUS_WAITING
+from ._common import STATUS_WAKE_KILL
 from ._common import STATUS_WAKING
 from ._common import STATUS_ZOMBIE
 from ._common import SUNOS
@@ -151,7 +153,7 @@ __all__ = [
     "STATUS_RUNNING", "STATUS_IDLE", "STATUS_SLEEPING", "STATUS_DISK_SLEEP",
     "STATUS_STOPPED", "STATUS_TRACING_STOP", "STATUS_ZOMBIE", "STATUS_DEAD",
     "STATUS_WAKING", "STATUS_LOCKED", "STATUS_WAITING", "STATUS_LOCKED",
-    "STATUS_PARKED",
+    "STATUS_PARKED", "STATUS_WAKE_KILL", "STATUS_SUSPENDED",
 
     "CONN_ESTABLISHED", "CONN_SYN_SENT", "CONN_SYN_RECV", "CONN_FIN_WAIT1",
     "CONN_FIN_WAIT2", "CONN_TIME_WAIT", "CONN_CLOSE", "CONN_CLOSE_WAIT",
